@@ -27,6 +27,7 @@ type effSel struct {
 	Calls     []string // canonical callee names
 	AllWrites bool     // every call whose callee (transitively) writes a store, moves coins or emits nothing-but-state
 	Stores    []string // globs over the address term of Store instructions
+	StoreVal  string   // when set: only stores of exactly this value term
 	Returns   string   // "success": return instructions whose error result may be nil
 }
 
@@ -76,8 +77,12 @@ func selectEffects(r *core.Run, fn *ssa.Function, sel effSel) []effSite {
 				if len(storeGlobs) > 0 {
 					at := res.Of(x.Addr).String()
 					for _, g := range storeGlobs {
-						if g.MatchString(at) {
-							add(ins, "store "+at)
+						if g.MatchString(at) && (sel.StoreVal == "" || res.Of(x.Val).String() == sel.StoreVal) {
+							slot := "store " + normT(at)
+							if sel.StoreVal != "" {
+								slot += " := " + sel.StoreVal
+							}
+							add(ins, slot)
 						}
 					}
 				}
@@ -304,4 +309,70 @@ func callTerm(res *term.Resolver, c ssa.CallInstruction) *term.Term {
 		return res.Of(v)
 	}
 	return nil
+}
+
+// evalStoreConst: guard row whose effect is "field := constant".
+func evalStoreConst(r *core.Run, id, fnName, addrGlob, val string, clauses []clause) {
+	evalGuard(r, id, fnName, effSel{Stores: []string{addrGlob}, StoreVal: val}, clauses, 1)
+}
+
+// shortTypeName: "model/types.Metadata" for a (pointer to) named type.
+func shortTypeName(t types.Type) string {
+	for {
+		if p, ok := t.(*types.Pointer); ok {
+			t = p.Elem()
+			continue
+		}
+		break
+	}
+	if n, ok := t.(*types.Named); ok && n.Obj().Pkg() != nil {
+		return prog.Short(n.Obj().Pkg().Path()) + "." + n.Obj().Name()
+	}
+	return t.String()
+}
+
+// evalStoreVal: every store to field typeDotField ("model/types.Metadata.Owner") of a
+// local record inside fn assigns a value whose term is among allowed.
+func evalStoreVal(r *core.Run, id, fnName, typeDotField string, allowed []string, what string) {
+	fn := r.Func(id, fnName)
+	if fn == nil {
+		return
+	}
+	res := r.Resolver(fn)
+	n := 0
+	for _, b := range fn.Blocks {
+		for _, ins := range b.Instrs {
+			st, ok := ins.(*ssa.Store)
+			if !ok {
+				continue
+			}
+			fa, ok := st.Addr.(*ssa.FieldAddr)
+			if !ok {
+				continue
+			}
+			if shortTypeName(fa.X.Type())+"."+fieldNameT(fa.X.Type(), fa.Field) != typeDotField {
+				continue
+			}
+			n++
+			key := core.Key(id, fnName, "store "+typeDotField)
+			if n > 1 {
+				key += fmt.Sprintf("#%d", n)
+			}
+			vt := normT(res.Of(st.Val).String())
+			ok2 := false
+			for _, g := range allowed {
+				if guard.Glob(normT(g)).MatchString(vt) {
+					ok2 = true
+				}
+			}
+			if ok2 {
+				r.Discharge(id, key, r.P.Pos(st.Pos()), what+": value is "+vt)
+			} else {
+				r.Violate(id, key, r.P.Pos(st.Pos()), fmt.Sprintf("%s: %s assigns %s to %s, allowed: %s", what, fnName, vt, typeDotField, strings.Join(allowed, " | ")))
+			}
+		}
+	}
+	if n == 0 {
+		r.Undecide(id, core.Key(id, fnName, "store "+typeDotField, "sites"), r.P.FuncPos(fn), "vacuous: no store to "+typeDotField+" found in "+fnName)
+	}
 }
